@@ -198,7 +198,11 @@ pub fn object_heavy(base: &Config, salt: u64) -> Config {
     let mut rng = Rng::new(salt);
     let steps = 10 + rng.below(50) as usize;
     // recipes: operand set-ups followed by the typed opcode that consumes them
-    const RECIPES: [&[&str]; 35] = [
+    const RECIPES: [&[&str]; 38] = [
+        // what sits on the stack after BUILD must still be the object, not its state
+        &["GLOBAL", "EMPTY_TUPLE", "REDUCE", "EMPTY_DICT", "BUILD", "NONE", "NONE", "SETITEM"],
+        &["GLOBAL", "GLOBAL", "EMPTY_TUPLE", "REDUCE", "EMPTY_TUPLE", "BUILD", "REDUCE"],
+        &["GLOBAL", "EMPTY_TUPLE", "NEWOBJ", "EMPTY_DICT", "BUILD", "EMPTY_DICT", "BUILD", "NONE", "TUPLE1", "BUILD"],
         // an alias that travels through the memo: the memo holds a (shallow) copy of a tuple that
         // contains the container, and GET brings it back above the container's MARK
         &["EMPTY_LIST", "DUP", "TUPLE1", "MEMOIZE", "POP", "MARK", "BINGET", "APPENDS"],
@@ -741,7 +745,6 @@ pub fn check_c11(cfg: &Config, res: &CaseResult, acc: &mut Acc) {
 pub fn c11(thorough: bool, seed: u64) -> CheckOutput {
     let n = if thorough { 1_500_000 } else { 120_000 };
     let mut sp = Space::full();
-    sp.force_unsafe = Some(false);
     sp.ranges = vec![
         (0, 0), (0, 1), (1, 0), (1, 1), (1, 2), (2, 2), (7, 3), (3, 7), (2, 9), (10, 10), (60, 300), (300, 60), (10, 50), (50, 10),
         (255, 257), (256, 256), (400, 401), (0, 600),
@@ -819,7 +822,7 @@ pub fn c11(thorough: bool, seed: u64) -> CheckOutput {
     }
     CheckOutput {
         acc,
-        rule: "cases = configuration matrix (safe mode, all 128 mutator subsets x 6 protocols, rates incl. 1.0 so string-length mutators run) over an 18-point (min,max) grid incl. equal, inverted and zero; T, the number of choices/emissions and the body/tail boundary come from the hook log, opcode counts from the lexer; distinct = distinct output bytes; non-trivial = T >= 2".into(),
+        rule: "cases = configuration matrix (safe and unsafe mode, all 128 mutator subsets incl. duplicated mutators x 6 protocols, rates incl. 1.0 so string-length mutators and post-emission rewrites run) over an 18-point (min,max) grid incl. equal, inverted and zero; T, the number of choices/emissions and the body/tail boundary come from the hook log, opcode counts from the lexer; distinct = distinct output bytes; non-trivial = T >= 2".into(),
         extra: json!({}),
         assumptions: std_assumptions(),
         exhaustive: None,
@@ -840,6 +843,13 @@ pub fn c12(thorough: bool, seed: u64) -> CheckOutput {
         seen_flags: BTreeMap<(u8, &'static str), (u64, u64)>,
         framed: BTreeMap<u8, (u64, u64)>,
         unframed: BTreeMap<u8, (u64, u64)>,
+    }
+    // prelude on this thread, protocols ASCENDING: process-wide state initialised by a lower
+    // protocol (e.g. a cached opcode list) must not make an opcode of a higher protocol unreachable
+    for p in 0..6u8 {
+        for s in 0..4u64 {
+            let _ = run_case(&Config::default_for(p, Entropy::Seed(1_000_000 + s)), None);
+        }
     }
     let total = 6 * (n_per + n_extra) * 2;
     let cov = par_run(
